@@ -291,7 +291,10 @@ def run(ctx):
                    "in 9000 / 65533 (thorough 10^5, 10^6), all-zero, single symbol, length 0 and 1, text, 64 KiB random and compressible (thorough 1 "
                    "and 4 MiB); one symbol occurring 255/256/4095/4096/65535/65536 times next to rarer symbols that keep slots; total lengths "
                    "72/73, 1023..1025, 5328/5329, 8191..8193, 32767..32769, 65535..65537 and 200 000 (70/30 split; thorough 2*10^6 and 2^17..2^19 +-1); "
-                   "LZ match lengths 9..12, 19..21, 257..259, 600 and distances 511..513, 32767..32769; bit fields of every width 0..33.  After "
+                   "LZ match lengths 9..12, 19..21, 257..259, 600 and distances 511..513, 32767..32769 in random bytes; a 301-byte block repeated to 32767 / "
+                   "32768 / 32769 / 40000 / 70000 bytes (a match at every position, also beyond the 32 KiB window), a unique 40-byte marker twice at "
+                   "distance 511..513 / 32767..32769 with the second copy beyond position 32768, markers of length 9..12 / 19..21 / 257..259 / 300 beyond "
+                   "position 32768; bit fields of every width 0..33.  After "
                    "every training the real normalised table / code tables are judged by TLC against FreqNorm.tla / PrefixCode.tla; the symbol-step "
                    "law decode_symbol(encode_symbol(s, x)) = (s, x) is judged on boundary and random states.")
     for s in s1.get("samples", [])[:3]:
